@@ -111,6 +111,8 @@ class Link(ElementWithVars[VarType]):
         if engine is None:
             engine = get_current_engine()
 
+        # (re)initialized states invalidate the next states computed from the old ones
+        self.next_states = None
         self.states: dict[str, VarType] = {
             name: (
                 init_conditions[name]
